@@ -51,6 +51,7 @@ ParseV(spec) ==
               ELSE IF <<T.out.line, T.out.col>> # <<spec.line, spec.col>> THEN Rej("error-position") ELSE Acc)
     ELSE
         IF T.out.trees # spec.trees THEN Rej("trees")
+        ELSE IF ~spec.ok /\ spec.tail THEN (IF T.out.ok THEN Drift("comments after the last graph are ignored, not an error (O3)") ELSE Acc)
         ELSE IF spec.ok THEN (IF ~T.out.ok THEN Rej("rejects-valid") ELSE Acc)
         ELSE (IF T.out.ok THEN Rej("accepts-invalid")
               ELSE IF <<T.out.line, T.out.col>> # <<spec.line, spec.col>> THEN Rej("error-position") ELSE Acc)
